@@ -15,7 +15,7 @@ RULES = {   # property -> [(finding id, predicate over [construct, slot, kind, c
   ('F-30', lambda x: 'attrpath' in x[0] and 'does not parse' in x[4], 'binding.py: a line comment inside an attrpath is re-emitted without the line break that ends it', 'a line comment between an attrpath segment and the following dot swallows the rest of the binding (the comment absorbs code; the output does not parse)'),
   ('F-40', lambda x: x[2] in ('two_b', 'b_then_eol_c', 'two_own_b'), 'trivia.py/function definition: a second comment on the line of a first one is re-attached (inline to the previous item) or replaces the first', 'two comments in one gap: the first is dropped (after a lambda colon) or the two swap places'),
   ('F-44', lambda x: x[0] in ('let_empty', 'let_empty_set') and x[1] == 'let|in', 'let.py: a binding-less `let in` is elided together with the trivia between `let` and `in`', 'a comment between `let` and `in` of a binding-less let is dropped when the wrapper is elided'),
-  ('F-03', lambda x: x[0] in ('empty_formals_at', 'assert_list', 'assert_set', 'select_set', 'inherit_in_let', 'assert', 'assert_multi', 'inherit', 'inherit_multi', 'inherit_from', 'lambda_at', 'lambda_at_pre', 'select', 'select_or') or (x[0] == 'dup_attrpath_inherit' and x[1].endswith('|;')), 'comments in the gaps of select paths, `or` defaults, @-patterns, `inherit` heads/tails and after `assert c;` are not captured by the readers (dropped) or are re-attached after the following token', 'a comment in one of the listed gaps is dropped or moves to the other side of a code token'),
+  ('F-03', lambda x: x[0] in ('empty_formals_at', 'assert_list', 'assert_set', 'select_set', 'inherit_in_let', 'assert', 'assert_multi', 'inherit', 'inherit_multi', 'inherit_from', 'lambda_at', 'lambda_at_pre', 'select', 'select_or', 'let_let_select', 'let_let_assert') or (x[0] == 'dup_attrpath_inherit' and x[1].endswith('|;')), 'comments in the gaps of select paths, `or` defaults, @-patterns, `inherit` heads/tails and after `assert c;` are not captured by the readers (dropped) or are re-attached after the following token', 'a comment in one of the listed gaps is dropped or moves to the other side of a code token'),
   ('F-49', lambda x: x[3] == 'lead_ws', 'source_code.py:from_cst reads the gaps from the root node\'s text (which starts at the first token) with absolute offsets: in a file that begins with whitespace every gap is read at a shifted position; two existing tests pin a consequence (no final newline for inputs starting with a line break), so the one-line repair cannot be made with the suite unedited', 'in a file that begins with whitespace, line breaks after comments and blank lines are misread: a line comment swallows the code after it (`   (a # c\\n)` becomes `(a # c)`), comments move, layout is not stable'),
  ],
  'C06': [
@@ -27,8 +27,8 @@ RULES = {   # property -> [(finding id, predicate over [construct, slot, kind, c
   ('F-47', lambda x: 'closing delimiter not at' in x[4] and 'more than one' not in x[4] and 'own-line comment' not in x[4], 'inherit.py / binding.py / call.py: a line break inside `inherit ( … )`, a comment inside an attrpath or glued to a function name leaves the closing delimiter on a line of its own at the wrong column', 'a closing `)` or `}` that starts a line is not at the indentation of the line that holds its opener (inherit sources written over two lines, comments inside attrpaths, a comment glued to a call head)'),
   ('F-48', lambda x: x[4] == 'not in spacing normal form: own-line comment not indented with what follows it', 'comments before the closing brace of formals, inside parentheses, after a lambda head / `with` / unary operator, and the second of two comments on one line are printed at column 0 or at the outer indentation', 'an own-line comment is not indented with the structure it belongs to (before `}` of a formals list, inside parentheses, before `:` of a lambda, after `with` / `!` / `-` / `?`, second comment of a pair)'),
   ('F-45', lambda x: x[0] in ('let_empty', 'let_empty_set') and x[1].startswith('in|'), 'let.py: when a binding-less `let in` is elided the blank line that followed `in` stays in front of the body', 'eliding a binding-less `let in` followed by a blank line leaves whitespace before the first token / after `=`'),
-  ('F-32', lambda x: x[0] in ('let', 'let_set', 'let_list', 'inherit_in_let', 'let_let', 'let_let_let') or (x[0] == 'nest' and 'let' in x[1].split('>')[1:]), 'binding.py/let.py: a `let` that is not at the top of the file is rendered after the preceding token with its scope indentation kept as spaces', 'a `let … in` expression in a nested position (binding value, parenthesis, lambda body, branch) is emitted with alignment padding before `let`'),
-  ('F-22', lambda x: 'more than one blank line' in x[4] or x[0] in ('select', 'attrpath') or ('attrpath' in x[0] and x[1].endswith('|.') and x[4].endswith(': tab')) or (x[0] == 'attrpath_interp' and x[1] in ('${|x', 'x|}', '${|y', 'y|}')), 'gap_lines are re-emitted verbatim around binary operators, after `:`, before a formal default, before `}` of formals and around comments there; gaps inside select paths and attrpaths are kept verbatim', 'runs of blank lines survive around binary operators, after a lambda colon, inside formals and select defaults; space runs and tabs inside select paths are kept'),
+  ('F-32', lambda x: x[0] in ('let', 'let_set', 'let_list', 'inherit_in_let', 'let_let', 'let_let_let') or x[0].startswith('let_') or (x[0] == 'nest' and 'let' in x[1].split('>')[1:]), 'binding.py/let.py: a `let` that is not at the top of the file is rendered after the preceding token with its scope indentation kept as spaces', 'a `let … in` expression in a nested position (binding value, parenthesis, lambda body, branch) is emitted with alignment padding before `let`'),
+  ('F-22', lambda x: 'more than one blank line' in x[4] or x[0] in ('select', 'attrpath', 'let_let_select') or ('attrpath' in x[0] and x[1].endswith('|.') and x[4].endswith(': tab')) or (x[0] == 'attrpath_interp' and x[1] in ('${|x', 'x|}', '${|y', 'y|}')), 'gap_lines are re-emitted verbatim around binary operators, after `:`, before a formal default, before `}` of formals and around comments there; gaps inside select paths and attrpaths are kept verbatim', 'runs of blank lines survive around binary operators, after a lambda colon, inside formals and select defaults; space runs and tabs inside select paths are kept'),
   ('F-31', lambda x: 'space before :' in x[4], 'function/definition.py: a block comment between the head and `:` is emitted with a space on both sides', 'a block comment between a lambda head and its colon leaves a space before `:`'),
   ('F-29', lambda x: 'more than one space' in x[4] and x[2] in ('inl_b', 'tight_b', 'tight_b_sp', 'two_b'), 'a block comment directly after a token on the same line (opener of an inline container, operator, function name) is laid out as an own-line comment without a line break before it', 'a block comment directly after `{`, `[`, `(`, an operator or a function name is followed by a line break, with a run of spaces before the comment'),
   ('F-49', lambda x: x[3] == 'lead_ws', 'source_code.py:from_cst reads the gaps from the root node\'s text (which starts at the first token) with absolute offsets: in a file that begins with whitespace every gap is read at a shifted position; two existing tests pin a consequence (no final newline for inputs starting with a line break), so the one-line repair cannot be made with the suite unedited', 'in a file that begins with whitespace, line breaks after comments and blank lines are misread: a line comment swallows the code after it (`   (a # c\\n)` becomes `(a # c)`), comments move, layout is not stable'),
